@@ -251,6 +251,9 @@ func genC01(r *rand.Rand, run int, tier string) *vm.Plan {
 	if r.Intn(12) == 0 { // a long chain (9-16 blocks): whatever is done per block must be done for every block
 		h.deepFork(8+r.Intn(7), 1, r.Intn(2) == 0)
 	}
+	if r.Intn(250) == 0 { // and now and then a very long one (31-34 appended blocks)
+		h.deepFork(30+r.Intn(4), 1, r.Intn(2) == 0)
+	}
 	if r.Intn(2) == 0 {
 		h.sealRandom()
 	}
@@ -561,6 +564,13 @@ func genC17(r *rand.Rand, run int, tier string) *vm.Plan {
 	}
 	// identical twins: same content issued twice, appended twice to the same parent and to different parents
 	same := h.g.Block(2, 1, 1)
+	if r.Intn(6) == 0 { // a block of more than a kilobyte (whatever is done differently for large payloads)
+		big := make([]byte, 1100+r.Intn(200))
+		for i := range big {
+			big[i] = byte('a' + (i*7+len(big))%26)
+		}
+		same.Context = string(big)
+	}
 	for i := 0; i < 2+r.Intn(5); i++ {
 		switch r.Intn(7) {
 		case 0:
